@@ -14,6 +14,9 @@ from .paths import enumerate_paths
 from . import terms as T
 
 
+LOGGING_CALLS = ('print', 'warnings.warn', 'warn', 'sys.stdout.write', 'sys.stderr.write')
+
+
 def _is_plain_local_store(st, locals_ok):
     if isinstance(st, ast.Assign):
         return all(isinstance(t, ast.Name) or (isinstance(t, (ast.Tuple, ast.List)) and all(isinstance(e, ast.Name) for e in t.elts))
@@ -88,8 +91,11 @@ def summary(fnode, name_map=None, call_alias=None, unroll=(0, 1, 2), ignore_call
                     effects.append(('store', T.simp(b.t(tg)) if not isinstance(tg, ast.Name) else ('name', tg.id), op, val))
                 elif isinstance(st, ast.Expr):
                     v = T.simp(b.t(st.value))
-                    if not (v[0] == 'call' and T.show(v[1]) in ignore_calls):
-                        effects.append(('do', v))
+                    if v[0] == 'call' and (T.show(v[1]) in ignore_calls or T.show(v[1]) in LOGGING_CALLS or T.show(v[1]).startswith(('logging.', 'log.', 'logger.'))):
+                        continue     # diagnostics are not behaviour
+                    if v[0] != 'call' and not isinstance(st.value, (ast.ListComp, ast.Await, ast.Yield)):
+                        continue     # a bare expression statement (e.g. `-x` probing for TypeError) is kept only if it can raise into a handler
+                    effects.append(('do', v))
                 elif isinstance(st, (ast.Import, ast.ImportFrom, ast.Pass, ast.Global, ast.Nonlocal, ast.FunctionDef, ast.ClassDef)):
                     continue
                 elif isinstance(st, ast.Delete):
